@@ -77,6 +77,20 @@ func genHistory(t *rapid.T) history {
 	}
 	for i := 0; i < n; i++ {
 		var s step
+		if rot {
+			// after a rotation: mostly cancel the session that lost its file / start further follows
+			switch rapid.IntRange(0, 9).Draw(t, "rot-opk") {
+			case 0, 1, 2:
+				h.Steps = append(h.Steps, step{Op: "cancel", Session: 0})
+				continue
+			case 3, 4, 5:
+				h.Steps = append(h.Steps, step{Op: "start-tail", Files: 1})
+				continue
+			case 6:
+				h.Steps = append(h.Steps, step{Op: "cancel", Session: rapid.IntRange(0, 20).Draw(t, "which")})
+				continue
+			}
+		}
 		switch rapid.IntRange(0, 9).Draw(t, "opk") {
 		case 0, 1, 2:
 			s = step{Op: "start-cat", Files: rapid.IntRange(1, 3*h.L).Draw(t, "files"), Glob: rapid.IntRange(0, 2).Draw(t, "glob") == 0}
@@ -333,6 +347,16 @@ func evalHistory(h history) lib.Outcome {
 				}
 				s.h.Shutdown()
 				s.ended = true
+				if rotated {
+					// a follow that lost its file retries every 2 s: give a cancelled one the time to notice the cancellation
+					end := time.Now().Add(2300 * time.Millisecond)
+					for time.Now().Before(end) {
+						if _, tl := count(); tl > h.LT {
+							return fail("step %d (cancel after rotation): %d followed files are open at once, the limit is %d", i, tl, h.LT)
+						}
+						time.Sleep(20 * time.Millisecond)
+					}
+				}
 			}
 		case "rotate":
 			if s := pick(st.Session, func(s *session) bool { return s.kind == "tail" && !s.ended }); s != nil {
@@ -377,6 +401,9 @@ func evalHistory(h history) lib.Outcome {
 			s.h.Shutdown()
 			s.ended = true
 		}
+	}
+	if rotated {
+		time.Sleep(2300 * time.Millisecond) // retry interval of a follow that lost its file
 	}
 	rotated = false // every follow is cancelled now: all slots must be back, exactly
 	if r := settle(len(h.Steps), "wind-down"); r != nil {
